@@ -9,13 +9,13 @@ from common import LEAN_DIR, VERIF
 BRIDGES = {
     "C01": ["Barril.Bridge.Posc", "Barril.Bridge.PoscTable", "Barril.Bridge.Conv", "Barril.Bridge.Info"],
     "C02": ["Barril.Bridge.Conv", "Barril.Bridge.Mgr2", "Barril.Bridge.Fixed2"],
-    "C03": ["Barril.Bridge.Alg", "Barril.Bridge.Alg2"],
-    "C04": ["Barril.Bridge.Alg", "Barril.Bridge.Alg2"],
+    "C03": ["Barril.Bridge.Alg", "Barril.Bridge.Alg2", "Barril.Bridge.AlgL"],
+    "C04": ["Barril.Bridge.Alg", "Barril.Bridge.Alg2", "Barril.Bridge.AlgL"],
     "C05": ["Barril.Bridge.Info", "Barril.Bridge.Alg2", "Barril.Bridge.Ccu"],
     "C07": ["Barril.Bridge.Qeq"],
     "C08": ["Barril.Bridge.Cmp", "Barril.Bridge.Qeq"],
     "C09": ["Barril.Bridge.Ops"],
-    "C10": ["Barril.Bridge.Ops"],
+    "C10": ["Barril.Bridge.Ops", "Barril.Bridge.AlgL"],
     "C11": ["Barril.Bridge.Fixed", "Barril.Bridge.Curve", "Barril.Bridge.Fixed2"],
     "C12": ["Barril.Bridge.Valid", "Barril.Bridge.Array"],
     "C14": ["Barril.Bridge.Reg"],
@@ -40,7 +40,9 @@ GENERATED_FROM = {
     "Barril.Bridge.Ops": ["barril/units/_scalar.py:Scalar._DoOperation", "barril/units/_array.py:Array._DoOperation"],
     "Barril.Bridge.Reg": ["barril/units/unit_database.py:UnitDatabase.AddUnit",
                           "barril/units/unit_database.py:UnitDatabase.AddUnitBase"],
-    "Barril.Bridge.Qeq": ["barril/units/_quantity.py:Quantity.__eq__", "barril/units/_quantity.py:Quantity.__hash__"],
+    "Barril.Bridge.Qeq": ["barril/units/_quantity.py:Quantity.__eq__", "barril/units/_quantity.py:Quantity.__hash__",
+                          "barril/units/_quantity.py:Quantity.__reduce__", "barril/units/_quantity.py:_ObtainReduced"],
+    "Barril.Bridge.AlgL": ["barril/units/unit_database.py:UnitDatabase._ConvertMatchingExp"],
     "Barril.Bridge.Valid": ["barril/units/_quantity.py:Quantity.CheckValue"],
     "Barril.Bridge.Conv": ["barril/units/unit_database.py:UnitDatabase.Convert"],
     "Barril.Bridge.Info": ["barril/units/unit_database.py:UnitDatabase.GetInfo",
